@@ -51,6 +51,15 @@ func (x *Exec) call(st *State, fr *Frame, at ssa.Instruction, cc *ssa.CallCommon
 	name, target := x.calleeName(cc, fnv)
 	st.callCounts["n:"+name]++
 	x.noteContinuesAfter(st, fr, name)
+	// remember what each callee returned last (spec: lastret("pattern"))
+	origBind := bind
+	bind = func(v Val) {
+		if st.meta == nil {
+			st.meta = map[string]Val{}
+		}
+		st.meta["ret:"+name] = v
+		origBind(v)
+	}
 
 	// interface invoke with statically known dynamic type -> concrete method
 	if cc.IsInvoke() && fnv.Dyn != nil && fnv.Dyn.Typ != nil {
@@ -71,10 +80,15 @@ func (x *Exec) call(st *State, fr *Frame, at ssa.Instruction, cc *ssa.CallCommon
 		return x.callAbstract(st, fr, at, name, nil, allArgs, cc.Signature().Results(), bind, cc)
 	}
 	if b, ok := cc.Value.(*ssa.Builtin); ok {
+		if b.Name() == "append" || b.Name() == "delete" || b.Name() == "copy" {
+			x.checkGuards(st, fr, at, "builtin."+b.Name(), args)
+		}
 		bind(x.builtin(st, fr, at, b, args, cc))
 		return false
 	}
 	if fnv.Commit != nil {
+		st.callCounts["n:<commit>"]++
+		x.checkGuards(st, fr, at, "<commit>", args)
 		from, to := fnv.Commit[0], fnv.Commit[1]
 		st.worlds[to] = st.worlds[from].clone()
 		st.note("commit: world %d := world %d", to, from)
@@ -446,11 +460,31 @@ func (x *Exec) callAbstract(st *State, fr *Frame, at ssa.Instruction, name strin
 		}
 	}
 	key := "abstract:" + name
-	if writes {
+	if writes && len(touchedWorlds) > 0 {
 		key += " [writes world]"
 	}
 	x.Abstracted[key]++
-	bind(x.resultVal(st, name, results))
+	rv := x.resultVal(st, name, results)
+	// store values inherit the world of the context / store they were derived from
+	w := 0
+	for _, a := range args {
+		if a.World > 0 {
+			w = a.World
+			break
+		}
+	}
+	if w > 0 {
+		if rv.Tup != nil {
+			for i := range rv.Tup {
+				if isStoreType(rv.Tup[i].Typ) || isContextType(rv.Tup[i].Typ) {
+					rv.Tup[i].World = w
+				}
+			}
+		} else if isStoreType(rv.Typ) || isContextType(rv.Typ) {
+			rv.World = w
+		}
+	}
+	bind(rv)
 	return false
 }
 
@@ -464,23 +498,60 @@ func pureArgsPkg(fn *ssa.Function) bool {
 }
 
 func (x *Exec) mayReachWorld(fn *ssa.Function, cc *ssa.CallCommon) bool {
-	// a writer without a context-carrying argument: keeper methods capture their stores
-	return true
+	// Stores are only reachable through a context (SDK 0.50: every keeper method takes one) or
+	// through a store value obtained from a context, and both carry their world index. A callee that
+	// receives neither cannot write a world.
+	return false
+}
+
+// isStoreType: values through which a world can be written later (inherit the world of the
+// context they were obtained from).
+func isStoreType(t types.Type) bool {
+	if t == nil {
+		return false
+	}
+	s := typeKey(t)
+	return strings.Contains(s, "KVStore") || strings.Contains(s, "store/prefix.Store") || strings.Contains(s, "store/types.Iterator") || strings.Contains(s, "core/store.Iterator")
 }
 
 func (x *Exec) resultVal(st *State, name string, results *types.Tuple) Val {
 	if results == nil || results.Len() == 0 {
 		return Val{T: Term{"unit", SUnit}}
 	}
+	var v Val
 	if results.Len() == 1 {
-		return x.freshVal(st, "r."+methodOf(name), results.At(0).Type())
+		v = x.freshVal(st, "r."+methodOf(name), results.At(0).Type())
+		x.foreignRef(st, v)
+	} else {
+		v = x.freshVal(st, "r."+methodOf(name), results)
+		for _, c := range v.Tup {
+			x.foreignRef(st, c)
+		}
 	}
-	return x.freshVal(st, "r."+methodOf(name), results)
+	x.sawRef(st, v)
+	return v
+}
+
+// foreignRef: a reference handed back by a callee is either an object that existed before this
+// function started (rid <= 0) or one the callee allocated (rid in a range disjoint from this
+// function's own allocations) — never one of this function's own objects that did not escape.
+func (x *Exec) foreignRef(st *State, v Val) {
+	var r Term
+	switch v.T.Sort {
+	case SRef:
+		r = v.T
+	case SSlice:
+		r = App(SRef, "s.base", v.T)
+	default:
+		return
+	}
+	id := App(SInt, "rid", r)
+	st.assume(Or(App(SBool, "<=", id, IntLit(0)), App(SBool, ">=", id, IntLit(1000000))))
 }
 
 // calls that are dropped entirely (DESIGN 2.6): logging, telemetry, event emission.
 func isDropped(name string) bool {
-	for _, p := range []string{"util/liblog.", "liblog.Logr)", "telemetry.", "go-metrics", "(log.Logger)", "cosmossdk.io/log.Logger)", "EventManager)", "(*github.com/cosmos/cosmos-sdk/types.EventManager)"} {
+	for _, p := range []string{"util/liblog.", "liblog.Logr)", "telemetry.", "go-metrics", "(log.Logger)", "cosmossdk.io/log.Logger)", "EventManager)", "EventManagerI)", "(*github.com/cosmos/cosmos-sdk/types.EventManager)"} {
 		if strings.Contains(name, p) {
 			return true
 		}
